@@ -261,6 +261,16 @@ pub fn run_c06(tier: Tier) {
     if c.has_violations() {
         return;
     }
+    // whole blocks: sections with different layouts followed by intermediate references by number
+    let blocks = Alphabet::new(
+        "A_blocks_refs",
+        &["step\n\n", "@a{1}\n\n", "> n\n\n", "= s\n", "@&(1)d{}\n\n", "@&(~1)d{}\n\n", "@&(=1)s{}\n\n", "@&(2)d{}\n\n", "x @&a{}\n\n"],
+    );
+    c.part(describe_alphabet(&blocks));
+    string_sweep("C06 blocks", &blocks, 0, tier.pick(6, 7), corners.clone(), None, c06_check);
+    if c.has_violations() {
+        return;
+    }
     string_sweep("C06 tokens", &tok, 0, tier.pick(3, 4), corners.clone(), None, c06_check);
     if c.has_violations() {
         return;
